@@ -350,7 +350,7 @@ pub fn run(ctx: &mut Ctx) {
         }
         record(r, &b.bytes, &m1, st)
     });
-    let cases = ctx.tier.pick(120_000u64, 2_000_000u64);
+    let cases = ctx.tier.pick(700_000u64, 5_000_000u64);
     ctx.pbt("c04-random", cases, 3000, |t, st| {
         let bytes = if t.chance(35) { gen_accepted(t, Avoid::NONE, 8).text().into_bytes() } else { gen_input(t).bytes };
         let m1: Beatmap = match rosu_map::from_bytes(&bytes) {
